@@ -69,11 +69,11 @@ Fixpoint run (lims : list Z) (st : cursor) : list chunk * cursor :=
 Definition start_cursor (cs : list chg) (start last : Z) : cursor :=
   mkCur cs start last false.
 
-(* chunk_range(range, k): range.step_by(k).map(|b| b ..= min(b + k, end)) *)
+(* chunk_range(range, k): range.step_by(k).map(|b| b ..= min(b + (k - 1), end)) *)
 Fixpoint chunk_range_fuel (fuel : nat) (s e k : Z) : list (Z * Z) :=
   match fuel with
   | O => []
-  | S f => if s <=? e then (s, Z.min (s + k) e) :: chunk_range_fuel f (s + k) e k
+  | S f => if s <=? e then (s, Z.min (s + (k - 1)) e) :: chunk_range_fuel f (s + k) e k
            else []
   end.
 
@@ -118,6 +118,18 @@ Definition check_chunks (cs : list chg) (start last : Z) (out : list chunk) : bo
   list_eqb chg_eqb (concat (map fst out)) cs &&
   forallb in_range_b out.
 
+(* a message only grows while it is below the limit in force: all but its last change
+   stay below the limit (so it is oversized only through its last change) *)
+Definition sumsz (cs : list chg) : Z := fold_right (fun c a => c_size c + a) 0 cs.
+Definition size_ok_b (limit : Z) (ch : chunk) : bool :=
+  (Nat.leb (length (fst ch)) 1) || (sumsz (removelast (fst ch)) <? limit).
+Fixpoint sizes_ok_b (lims : list Z) (out : list chunk) : bool :=
+  match out, lims with
+  | [], _ => true
+  | ch :: out', l :: lims' => size_ok_b l ch && sizes_ok_b lims' out'
+  | _ :: _, [] => false
+  end.
+
 Definition blocks_ok_b (s e : Z) (bs : list (Z * Z)) : bool :=
   forallb (fun b => (s <=? fst b) && (fst b <=? snd b) && (snd b <=? e)) bs.
 
@@ -129,6 +141,18 @@ Definition in_block_b (x : Z) (b : Z * Z) : bool := (fst b <=? x) && (x <=? snd 
 (* union of the blocks = [s,e], checked pointwise (exact by definition) *)
 Definition covers_b (s e : Z) (bs : list (Z * Z)) : bool :=
   forallb (fun x => existsb (in_block_b x) bs) (zseq s e).
+
+(* blocks partition s..=e: they follow each other without sharing a version and hold at most k versions *)
+Fixpoint rtiles_b (s e k : Z) (bs : list (Z * Z)) : bool :=
+  match bs with
+  | [] => false
+  | (a, b) :: rest =>
+    (a =? s) && (a <=? b) && (b - a + 1 <=? k) &&
+    match rest with
+    | [] => b =? e
+    | _ => (b <? e) && rtiles_b (b + 1) e k rest
+    end
+  end.
 
 Definition check_chunk_range (s e : Z) (bs : list (Z * Z)) : bool :=
   blocks_ok_b s e bs && covers_b s e bs.
